@@ -1,2 +1,229 @@
-import PeptVerif.Model.AbsMass
-/-! C12 property theorems (in progress) -/
+import PeptVerif.Lemmas.AbsMass
+/-!
+# C12 — global modification rules equal the explicit per-residue form; global isotope labels
+
+Property theorems only. Models: `Model/StaticMods.lean` (`parse_static_mods`, `condense_static_mods`, `count_residues`)
+and `Model/AbsMass.lean` (the structure of `mass` and `comp_mass`; every number is a parameter of `Env`, so each theorem
+below holds for ANY residue masses, modification masses / compositions and element masses). Specification:
+`Spec/StaticMods.lean` (`modsAt`, `ruleModsAt`, `termAfter`).
+
+Not stated here: the fragment-ion clause (fragmentation is modelled by C04; C12 checks it by the relational oracle on the
+implementation only).
+-/
+namespace Pept
+namespace C12
+open Static AbsMass
+
+/-- **condensing produces exactly the explicit form.** For an annotation with static rules whose text parses to the map
+`m`: the result has no static rules, the same residues, on every residue the modifications it had followed by the rule
+modifications of every target that sits there (`ruleModsAt`), the N- and C-terminal rule modifications appended to the
+termini, and nothing else changed. -/
+theorem condense_spec (a : Annotation) (rules : List Mod) (m : StaticMap)
+    (hs : a.static = some rules) (hp : parseStaticMods (some rules) = .ok m) :
+    ∃ c, condenseStatic a = .ok c ∧ c.static = none ∧ c.seq = a.seq ∧
+      (∀ i : Nat, modsAt c i = modsAt a i ++ ruleModsAt a.seq i m) ∧
+      (∀ i : Int, i < 0 → modsAt c i = modsAt a i) ∧
+      c.nterm = termAfter a.nterm m nTermKey ∧ c.cterm = termAfter a.cterm m cTermKey ∧
+      c.labile = a.labile ∧ c.unknown = a.unknown ∧ c.intervals = a.intervals ∧ c.isotope = a.isotope ∧
+      c.charge = a.charge ∧ c.adducts = a.adducts := by
+  refine ⟨applyMap a m, ?_, rfl, rfl, ?_, ?_, ?_, ?_, rfl, rfl, rfl, rfl, rfl, rfl⟩
+  · simp [condenseStatic, hs, hp]
+  · intro i
+    exact getO_applyResidueRules a.seq m a.internal i
+  · intro i hi
+    exact getO_applyResidueRules_neg a.seq m a.internal i hi
+  · simp only [applyMap, termAfter]
+    cases dictGet m nTermKey <;> cases a.nterm <;> simp [appendMods]
+  · simp only [applyMap, termAfter]
+    cases dictGet m cTermKey <;> cases a.cterm <;> simp [appendMods]
+
+/-- `<[10]@P,N-Term>P[1]EP` -/
+def exRule : Annotation :=
+  { seq := "PEP".toList, static := some [⟨.str "[10]@P,N-Term".toList, 1⟩], internal := some [(0, [⟨.int 1, 1⟩])] }
+
+/-- `[10]-P[1][10]EP[10]` -/
+def exExplicit : Annotation :=
+  { seq := "PEP".toList, nterm := some [⟨.int 10, 1⟩], internal := some [(0, [⟨.int 1, 1⟩, ⟨.int 10, 1⟩]), (2, [⟨.int 10, 1⟩])] }
+
+example : condenseStatic exRule = .ok exExplicit := by decide
+
+/-- a one-letter target stands for exactly the positions of that letter, each once -/
+theorem condense_single_letter (ch : Char) (seq : List Char) (i : Nat) :
+    (targetIndices [ch] seq).count i = if seq[i]? = some ch then 1 else 0 := by
+  rw [targetIndices_single]
+  have hnd : ((List.range seq.length).filter fun j => seq[j]? == some ch).Nodup :=
+    List.Nodup.sublist List.filter_sublist List.nodup_range
+  rw [List.Nodup.count hnd]
+  by_cases h : seq[i]? = some ch
+  · have hi : i < seq.length := by
+      rcases Nat.lt_or_ge i seq.length with h' | h'
+      · exact h'
+      · rw [List.getElem?_eq_none h'] at h; cases h
+    have hmem : i ∈ (List.range seq.length).filter fun j => seq[j]? == some ch := by
+      rw [List.mem_filter]; exact ⟨List.mem_range.mpr hi, by simp [h]⟩
+    simp only [hmem, h, if_true]
+  · have hmem : i ∉ (List.range seq.length).filter fun j => seq[j]? == some ch := by
+      rw [List.mem_filter]; rintro ⟨_, h2⟩; apply h; simpa using h2
+    simp only [hmem, h, if_false]
+
+example : targetIndices ['P'] "PEPTIDE".toList = [0, 2] := by decide
+
+/-- **same mass (fast path), for any weights.** `mass` of the rule form, computed by the static-rule block of `mass`
+(terminal keys once, residue keys × `sequence.count`), equals `mass` of the condensed form; a rule text that does not parse
+fails both the same way. -/
+theorem mass_condense (E : Env) (a : Annotation) : (condenseStatic a >>= massFast E) = massFast E a :=
+  massFast_condense E a
+
+/-- every residue weighs 100, an integer modification weighs its value, water weighs 18 -/
+def exEnv : Env :=
+  { res := fun _ => 100, mu := fun v => match v with | .int i => i | _ => 0, adj := 18, aaComp := fun _ => [],
+    modRes := fun _ => .bad, ionAdj := [], chargeComp := [], em := fun _ => 0 }
+
+example : massFast exEnv exRule = .ok 349 ∧ massFast exEnv exExplicit = .ok 349 := by decide +kernel
+
+/-- **same composition and delta mass.** `comp_mass` condenses first, so the condensed form gives the same result. -/
+theorem comp_condense (E : Env) (a c : Annotation) (h : condenseStatic a = .ok c) :
+    compMassOf E c = compMassOf E a := by
+  unfold compMassOf
+  rw [condenseStatic_idem a c h, h]
+
+/-- **same mass whichever path `mass` takes** (fast path without labels, composition path with labels) -/
+theorem mass_condense_any (E : Env) (a c : Annotation) (h : condenseStatic a = .ok c) :
+    massOf E c = massOf E a := by
+  have hiso : c.isotope = a.isotope := by
+    unfold condenseStatic at h
+    cases hs : a.static with
+    | none => simp [hs] at h; subst h; rfl
+    | some rules =>
+      simp only [hs] at h
+      cases hp : parseStaticMods (some rules) with
+      | error e => simp [hp] at h
+      | ok m => simp [hp] at h; subst h; rfl
+  have hfast : massFast E c = massFast E a := by
+    have := massFast_condense E a
+    rw [h] at this
+    exact this
+  have hlab : massLabel E c = massLabel E a := by
+    unfold massLabel
+    rw [comp_condense E a c h]
+  unfold massOf
+  rw [hiso, hfast, hlab]
+
+/-- **same modified-residue counts.** `count_residues` condenses first; the explicit form is a fixed point. -/
+theorem count_condense (a c : Annotation) (h : condenseStatic a = .ok c) : countResidues c = countResidues a := by
+  unfold countResidues
+  rw [condenseStatic_idem a c h, h]
+
+example : countResidues { seq := "PEPE".toList, static := some [⟨.str "[3.14]@E".toList, 1⟩] } =
+    .ok [("P".toList, 2), ("E[3.14]".toList, 2)] := by decide
+
+/-! ### isotope labels (composition path) -/
+
+/-- the label map of one label: the element is the label without its digits (`D`, `T` stand for `H`) -/
+example : parseIsotopeMods (fun _ => true) [⟨.str "13C".toList, 1⟩] = .ok [("C".toList, "13C".toList)] := by decide
+example : parseIsotopeMods (fun _ => true) [⟨.str "D".toList, 1⟩, ⟨.str "15N".toList, 1⟩] =
+    .ok [("N".toList, "15N".toList), ("H".toList, "D".toList)] := by decide
+
+/-- **label shift.** For an unlabelled annotation `a` (condensed form `c`, all modifications resolvable) and labels `L`
+with label map `lm`: the labelled mass minus the unlabelled mass is the label shift of the composition of residues,
+termini (ion-type adjustment) and charge carrier, plus — only when `use_isotope_on_mods` — the label shift of the
+modification composition. `labelShift em comp lm` = Σ over the entries (element ↦ label) of
+count(element) · (m(label) − m(element)), each entry seeing the composition left by the previous ones. -/
+theorem label_shift (E : Env) (a c : Annotation) (L : List Mod) (lm : LabelMap)
+    (h0 : a.isotope = none) (hc : condenseStatic a = .ok c) (hbad : (allMods c).any (isBad E) = false)
+    (hl : parseIsotopeMods E.knownLabel L = .ok lm) :
+    ∃ x y, massLabel E { a with isotope := some L } = .ok x ∧ massLabel E a = .ok y ∧
+      x - y = labelShift E.em (sequenceComposition E c) lm +
+        (if E.useIsotopeOnMods then labelShift E.em (modComposition E c) lm else 0) := by
+  have hciso : c.isotope = none := by
+    unfold condenseStatic at hc
+    cases hs : a.static with
+    | none => simp [hs] at hc; subst hc; exact h0
+    | some rules =>
+      simp only [hs] at hc
+      cases hp : parseStaticMods (some rules) with
+      | error e => simp [hp] at hc
+      | ok m => simp [hp] at hc; subst hc; exact h0
+  have hcL := condenseStatic_isotope a c (some L) hc
+  have e1 : sequenceComposition E { c with isotope := some L } = sequenceComposition E c := rfl
+  have e2 : modComposition E { c with isotope := some L } = modComposition E c := rfl
+  have e3 : deltaMass E { c with isotope := some L } = deltaMass E c := rfl
+  have e4 : allMods { c with isotope := some L } = allMods c := rfl
+  have hn1 := nodupKeys_sequenceComposition E c
+  have hn2 := nodupKeys_modComposition E c
+  cases hu : E.useIsotopeOnMods with
+  | false =>
+    refine ⟨chemMass E.em (relabel (sequenceComposition E c) lm) + chemMass E.em (modComposition E c) + deltaMass E c,
+            chemMass E.em (sequenceComposition E c) + chemMass E.em (modComposition E c) + deltaMass E c, ?_, ?_, ?_⟩
+    · simp [massLabel, compMassOf, hcL, e4, hbad, hl, hu, e1, e2, e3, chemMass_dropZeros, chemMass_compAdd, chemMass]
+    · simp [massLabel, compMassOf, hc, hbad, hciso, hu, relabel, chemMass_dropZeros, chemMass_compAdd, chemMass]
+    · rw [chemMass_relabel E.em lm _ hn1]; simp
+  | true =>
+    refine ⟨chemMass E.em (relabel (sequenceComposition E c) lm) + chemMass E.em (relabel (modComposition E c) lm) +
+              deltaMass E c,
+            chemMass E.em (sequenceComposition E c) + chemMass E.em (modComposition E c) + deltaMass E c, ?_, ?_, ?_⟩
+    · simp [massLabel, compMassOf, hcL, e4, hbad, hl, hu, e1, e2, e3, chemMass_dropZeros, chemMass_compAdd, chemMass]
+    · simp [massLabel, compMassOf, hc, hbad, hciso, hu, relabel, chemMass_dropZeros, chemMass_compAdd, chemMass]
+    · rw [chemMass_relabel E.em lm _ hn1, chemMass_relabel E.em lm _ hn2]; simp only [if_true]; ring
+
+/-- one label `element ↦ label`: the shift is (#atoms of the element in residues, termini and charge carrier) ×
+(m(label) − m(element)) -/
+theorem label_shift_single (em : List Char → Rat) (c : Comp) (el lab : List Char) :
+    labelShift em c [(el, lab)] = compGet c el * (em lab - em el) := by
+  simp [labelShift]
+
+/-- two labels on different elements (the second element is neither the first element nor the first label): the shifts add -/
+theorem label_shift_pair (em : List Char → Rat) (c : Comp) (e1 l1 e2 l2 : List Char) (h1 : e2 ≠ e1) (h2 : e2 ≠ l1) :
+    labelShift em c [(e1, l1), (e2, l2)] =
+      compGet c e1 * (em l1 - em e1) + compGet c e2 * (em l2 - em e2) := by
+  simp [labelShift, compGet_relabel1_other c e1 l1 e2 h1 h2]
+
+/-- **a label spares the modifications unless asked**: without `use_isotope_on_mods` the shift is that of the residues,
+termini and charge carrier alone — the same whatever modifications the peptide carries -/
+theorem label_spares_mods (E : Env) (a c : Annotation) (L : List Mod) (lm : LabelMap)
+    (h0 : a.isotope = none) (hc : condenseStatic a = .ok c) (hbad : (allMods c).any (isBad E) = false)
+    (hl : parseIsotopeMods E.knownLabel L = .ok lm) (hu : E.useIsotopeOnMods = false) :
+    ∃ x y, massLabel E { a with isotope := some L } = .ok x ∧ massLabel E a = .ok y ∧
+      x - y = labelShift E.em (sequenceComposition E { seq := a.seq }) lm := by
+  obtain ⟨x, y, hx, hy, hxy⟩ := label_shift E a c L lm h0 hc hbad hl
+  refine ⟨x, y, hx, hy, ?_⟩
+  have : sequenceComposition E c = sequenceComposition E { seq := a.seq } := by
+    unfold sequenceComposition; rw [condenseStatic_seq a c hc]
+  rw [hxy, hu, this]; simp
+
+/-- **with `use_isotope_on_mods` the label also reaches the atoms inside modifications** -/
+theorem label_reaches_mods (E : Env) (a c : Annotation) (L : List Mod) (lm : LabelMap)
+    (h0 : a.isotope = none) (hc : condenseStatic a = .ok c) (hbad : (allMods c).any (isBad E) = false)
+    (hl : parseIsotopeMods E.knownLabel L = .ok lm) (hu : E.useIsotopeOnMods = true) :
+    ∃ x y, massLabel E { a with isotope := some L } = .ok x ∧ massLabel E a = .ok y ∧
+      x - y = labelShift E.em (sequenceComposition E { seq := a.seq }) lm + labelShift E.em (modComposition E c) lm := by
+  obtain ⟨x, y, hx, hy, hxy⟩ := label_shift E a c L lm h0 hc hbad hl
+  refine ⟨x, y, hx, hy, ?_⟩
+  have : sequenceComposition E c = sequenceComposition E { seq := a.seq } := by
+    unfold sequenceComposition; rw [condenseStatic_seq a c hc]
+  rw [hxy, hu, this]; simp
+
+/-- **a peptide without the element is unchanged** (the element has count zero in residues, termini and charge carrier,
+and — when modifications are reached — in the modifications) -/
+theorem label_absent_element (E : Env) (a c : Annotation) (L : List Mod) (lm : LabelMap)
+    (h0 : a.isotope = none) (hc : condenseStatic a = .ok c) (hbad : (allMods c).any (isBad E) = false)
+    (hl : parseIsotopeMods E.knownLabel L = .ok lm)
+    (habs : ∀ p ∈ lm, compGet (sequenceComposition E c) p.1 = 0)
+    (hmods : E.useIsotopeOnMods = true → ∀ p ∈ lm, compGet (modComposition E c) p.1 = 0) :
+    massLabel E { a with isotope := some L } = massLabel E a := by
+  obtain ⟨x, y, hx, hy, hxy⟩ := label_shift E a c L lm h0 hc hbad hl
+  rw [labelShift_zero E.em lm _ habs] at hxy
+  have : x = y := by
+    cases hu : E.useIsotopeOnMods with
+    | false => rw [hu] at hxy; simp at hxy; linarith
+    | true =>
+      rw [hu, labelShift_zero E.em lm _ (hmods hu)] at hxy; simp at hxy; linarith
+  rw [hx, hy, this]
+
+/-- non-vacuity of the label theorems: glycine-like residue `C2H3NO` + water, label `13C`, shift = 2 · (13 − 12) -/
+example : labelShift (fun e => if e = "13C".toList then 13 else if e = "C".toList then 12 else 1)
+    [("C".toList, 2), ("H".toList, 5), ("N".toList, 1), ("O".toList, 2)] [("C".toList, "13C".toList)] = 2 := by
+  decide +kernel
+
+end C12
+end Pept
